@@ -99,6 +99,9 @@ def cases(tier, seed):
         for mask in range(64):
             yield "colmap", dict(fmt=fmt, mask=mask)
         yield "colmap_prefix", dict(fmt=fmt)
+    for k in range(len(WIDE)):
+        for abp in ([(4.0, 3.0, 0.0), (6.0, 5.0, 40.0)] if q else [(4.0, 3.0, 0.0), (6.0, 5.0, 40.0), (4.0, 4.0, 0.0), (8.0, 3.0, -70.0)]):
+            yield "wide", dict(k=k, abp=list(abp))
         for mi, mode in enumerate(CLI_MODES):
             for ri, rmask in enumerate(CLI_RENAMES):
                 if q and (mi + ri + FORMATS.index(fmt)) % 3:
@@ -768,6 +771,63 @@ def ev_colmap_prefix(case, ctx):
     ctx.outcome("colmap_prefix:same" if _same_sources(ctx, got, srcs, sig, "prefixed columns") else "colmap_prefix:differs")
 
 
+WIDE = [("SIN", "corner"), ("ZEA", "corner"), ("SIN", "centre"), ("TAN", "corner"), ("ZEA", "far_off")]
+
+
+def ev_wide(case, ctx):
+    """wide fields (17 x 22 degrees): catalogues whose sources have bit-identical (a, b, pa) - point-source catalogues - at
+    places where the local pixel scale and orientation differ: additive over subsets and independent of the row order"""
+    from AegeanTools import AeRes
+    from AegeanTools.wcs_helpers import WCSHelper
+    proj, where = WIDE[case["k"]]
+    shape = (170, 220)
+    cd = 0.1
+    crpix = dict(corner=(4.0, 6.0), centre=None, far_off=(-150.0, 300.0))[where]
+    hdr = wz.make_header(proj, (75.0 + core.seed_shift(ctx.seed, 31, 10.0), -20.0), cd, shape, beam=(4 * cd, 3 * cd, 0.0), **(dict(crpix=crpix) if crpix else {}))
+    wh = WCSHelper.from_header(wz.to_fits_header(hdr))
+    a, b, pa = case["abp"]
+    pos = [(20.3, 25.1), (150.2, 30.7), (80.5, 110.2), (25.9, 200.4), (155.6, 205.3), (90.0, 180.0)]
+    srcs = []
+    for j, (r, c) in enumerate(pos):
+        ra, dec = wz.pix2sky(hdr, c + 1.0, r + 1.0)
+        srcs.append(dict(ra=float(ra), dec=float(dec), peak=[1.0, 0.7, -0.5, 1.3, 0.9, 0.4][j], a=a * cd, b=b * cd, pa=pa, pos="wide%d" % j))
+    comps = [component(s, j) for j, s in enumerate(srcs)]
+    sig = "wide:%s,crpix=%s,abp=%r" % (proj, where, tuple(case["abp"]))
+    ctx.count("wide")
+    ctx.nontrivial(sig)
+    try:
+        full = np.asarray(AeRes.make_model(comps, shape, wh), dtype=np.float64)
+        singles = [np.asarray(AeRes.make_model([c_], shape, wh), dtype=np.float64) for c_ in comps]
+        rev = np.asarray(AeRes.make_model(comps[::-1], shape, wh), dtype=np.float64)
+        rot = np.asarray(AeRes.make_model(comps[2:] + comps[:2], shape, wh), dtype=np.float64)
+    except Exception as e:
+        ctx.violation("make_model raised %r (%s)" % (e, sig), "raise|" + sig)
+        return
+    tot = sum(abs(s["peak"]) for s in srcs)
+    ssum = np.sum(singles, axis=0)
+    err = float(np.max(np.abs(full - ssum))) / tot
+    ctx.note_max("wide_additivity_err", err)
+    ok = True
+    if not err <= 1e-9:
+        w = np.unravel_index(int(np.argmax(np.abs(full - ssum))), full.shape)
+        ctx.violation("wide field: model of %d sources with identical (a, b, pa) differs from the sum of the single-source models by %.4g of the peaks at pixel %r (%s)" % (
+            len(srcs), err, tuple(int(x) for x in w), sig), "wide_additive|" + sig)
+        ok = False
+    for nm, other in (("reversed", rev), ("rotated", rot)):
+        e2 = float(np.max(np.abs(full - other))) / tot
+        if not e2 <= 1e-9:
+            ctx.violation("wide field: model depends on the row order (%s catalogue differs by %.4g of the peaks) (%s)" % (nm, e2, sig), "wide_order|" + sig)
+            ok = False
+    # every single-source model is non-trivial and sits where the source is
+    for j, (m, s_) in enumerate(zip(singles, srcs)):
+        w = np.unravel_index(int(np.argmax(np.abs(m))), m.shape)
+        if not (abs(w[0] - pos[j][0]) <= 1.0 and abs(w[1] - pos[j][1]) <= 1.0 and abs(abs(m[w]) - abs(s_["peak"])) <= 0.1 * abs(s_["peak"])):
+            ctx.violation("wide field: single-source model %d peaks at %r with %.4g, source at %r with %.4g (%s)" % (j, tuple(int(x) for x in w), m[w], pos[j], s_["peak"], sig),
+                          "wide_single|" + sig)
+            ok = False
+    ctx.outcome("wide:%s" % ("ok" if ok else "bad"))
+
+
 CLI_FLAG = dict(ra="--racol", dec="--deccol", peak_flux="--peakcol", a="--acol", b="--bcol", pa="--pacol")
 CLI_MODES = [["sub"], ["add"], ["mask"], ["mask", "sigma", 10.0], ["mask", "sigma", 25.0], ["mask", "frac", 0.5], ["mask", "frac", 0.9],
              ["frac_only", 0.5], ["add", "mask", "frac", 0.5]]
@@ -853,7 +913,7 @@ def ev_cli(case, ctx):
 
 
 CLAUSES = dict(single=ev_single, cat=ev_cat, loop=ev_loop, addsub=ev_addsub, mask=ev_mask, colmap=ev_colmap,
-               colmap_prefix=ev_colmap_prefix, cli=ev_cli)
+               colmap_prefix=ev_colmap_prefix, cli=ev_cli, wide=ev_wide)
 
 
 def evaluate(clause, case, ctx):
